@@ -631,6 +631,11 @@ fn build_merkle_tree(raw_shreds: &RawShreds) -> SliceMerkleTree {
     MerkleTree::new(leaves)
 }
 
+// verification hook (guard: cfg(kani), set only by `cargo kani`): harnesses live in /verif
+#[cfg(kani)]
+#[path = "/verif/units/shred_auth/kani/shredder_kani.rs"]
+mod verif_kani;
+
 #[cfg(test)]
 mod tests {
     use anyhow::Result;
